@@ -242,6 +242,35 @@ func c01Gen(r *Rand, tier string, i int) Scenario {
 		max = lim
 	}
 	sc.Content, sc.Desc = genC01Content(r, sc.Cfg.MLL, max)
+	if r.Bool(0.08) {
+		// total size exactly at (or one byte off) the buffer sizes of the pipeline
+		// (bufio 4096, SSH packet 32768, io.Copy 32768, 65536), with and without
+		// a final newline, the last line short or spanning the boundary
+		if sc.Cfg.MLL < 1024 {
+			sc.Cfg.MLL = PickOf(r, 1024, 40000) // keep the number of records bounded
+		}
+		size := PickOf(r, 4096, 8192, 32768, 65536) + PickOf(r, -1, 0, 0, 1)
+		var out bytes.Buffer
+		for out.Len() < size {
+			l := PickOf(r, 0, 7, 63, 100, 1000, 4095, 4096)
+			if out.Len()+l+1 > size {
+				l = size - out.Len() - 1
+				if l < 0 {
+					break
+				}
+			}
+			out.Write(genBytes(r, l, 2))
+			out.WriteByte('\n')
+		}
+		b := out.Bytes()
+		if len(b) > size {
+			b = b[:size]
+		}
+		if r.Bool(0.5) && len(b) > 0 && b[len(b)-1] == '\n' {
+			b[len(b)-1] = 'z' // unterminated last line ending exactly at the boundary
+		}
+		sc.Content, sc.Desc = b, "boundary-size"
+	}
 	if r.Bool(0.12) {
 		// many short lines (more than the two 100-slot queues hold) and a consumer
 		// that pauses early on: the reader waits behind a full queue, reaches EOF
@@ -285,9 +314,18 @@ func compress(kind string, b []byte) []byte {
 	switch kind {
 	case "gz", "gzip":
 		var buf bytes.Buffer
-		zw := gzip.NewWriter(&buf)
-		zw.Write(b)
-		zw.Close()
+		// contents above 2000 bytes whose length is divisible by 3 are written
+		// as two concatenated gzip members (what `cat a.gz b.gz` produces; gzip
+		// readers must continue with the next member)
+		parts := [][]byte{b}
+		if len(b) > 2000 && len(b)%3 == 0 {
+			parts = [][]byte{b[:len(b)/2], b[len(b)/2:]}
+		}
+		for _, p := range parts {
+			zw := gzip.NewWriter(&buf)
+			zw.Write(p)
+			zw.Close()
+		}
 		return buf.Bytes()
 	case "zst":
 		out, err := zstd.Compress(nil, b)
